@@ -1671,6 +1671,9 @@ class Function:
                 cur = Block('%' + str(len(self.params)))
                 self.blocks[cur.name] = cur
                 self.order.append(cur.name)
+            if cur.lines and re.match(r'^\s*switch\b', cur.lines[-1]) and cur.lines[-1].count('[') > cur.lines[-1].count(']'):
+                cur.lines[-1] = cur.lines[-1].rstrip() + ' ' + s        # the case list of a switch is printed one case per line
+                continue
             cur.lines.append(l)
         self._loopfree = None
 
